@@ -16,6 +16,8 @@ def check_valence(aa):
         if el is None:
             return 'valence:no-element', {'node': n}
         if el == 'H':
+            if aa.degree(n) == 0 and d.get('single_h_frag'):
+                continue    # a single-hydrogen fragment whose descriptor found no partner: nothing to complete
             if aa.degree(n) != 1:
                 return 'valence:H-degree', {'node': n, 'degree': aa.degree(n)}
             continue
@@ -347,3 +349,15 @@ def _assignable(coarse, per_edge, merges, flexible, limit=20000):
                 cap[e] += 1
         return False
     return rec(0)
+
+
+def check_h_attrs_sampler(aa):
+    """sampler results carry no 'mapping'; hydrogens that are their own fragment are tagged single_h_frag"""
+    for n, d in aa.nodes(data=True):
+        if d.get('element') != 'H' or aa.degree(n) != 1 or d.get('single_h_frag') or 'bonding' in d:
+            continue
+        nb = next(iter(aa[n]))
+        for attr in ('fragid', 'fragname', 'weight'):
+            if d.get(attr) != aa.nodes[nb].get(attr):
+                return 'H-attr:' + attr, {'node': n, 'value': d.get(attr), 'neighbour': aa.nodes[nb].get(attr)}
+    return None
